@@ -36,7 +36,7 @@ OBLIGATIONS = {"lhs": 50, "lhs:n=1": 3, "lhs:narrow-range": 5, "lhs:scalar-pmax"
                "pareto:complete": 30, "pareto:nan": 30, "pareto:ties": 30,
                "pareto:n<=1": 5, "box:nan-inf": 30, "box:lt4": 10, "box:constant": 5,
                "box:by": 20, "violin": 20, "violin:inf": 5, "violin:constant": 3,
-               "violin:odd-size": 3, "lhs:bounds-reused": 50,
+               "violin:odd-size": 3, "lhs:bounds-reused": 50, "box:drawn": 10,
                "ppos:caller-modifies-result": 30}
 
 
@@ -402,6 +402,31 @@ def run_box_case(ctx, case):
             bad = cmp_stats(st[f"c{i}"], ref, mag)
             ctx.check("Boxplot.stats", not bad, "Boxplot|stats", case,
                       lambda: {"col": i, "bad": bad[:4]})
+        if ctx.evaluations % 5 == 0:
+            # drawing the plot (linear and log axis) is a read-only use of the table
+            import matplotlib
+            matplotlib.use("Agg")
+            import matplotlib.pyplot as plt
+            before = st.copy()
+            for kwd in ({}, {"logscale": True}):
+                fig, ax = plt.subplots()
+                try:
+                    with warnings.catch_warnings():
+                        warnings.simplefilter("ignore")
+                        bp.draw(ax=ax, **kwd)
+                except Exception:
+                    ctx.extra["Boxplot.draw-raised"] += 1
+                finally:
+                    plt.close(fig)
+                ctx.tag("box:drawn")
+                ctx.api("Boxplot.draw")
+                now = bp.stats
+                same = now.shape == before.shape and bool(np.all(
+                    (now.values == before.values) |
+                    (np.isnan(now.values.astype(float)) &
+                     np.isnan(before.values.astype(float)))))
+                ctx.check("Boxplot.stats-after-draw", same, "Boxplot|stats-changed-by-draw",
+                          case, lambda: {"options": kwd})
 
 
 def run_boxby_case(ctx, case):
